@@ -154,6 +154,20 @@ static void gen(long seed, int nexec, int irq)
 	}
 }
 
+/* a producer stuck in ringbuf_putchar on a full ring for a long time before the consumer frees a slot */
+static void late(int l, int spins)
+{
+	len = l; start = l > 2 ? l - 1 : 0;
+	np = l; nc = 3;
+	for (int i = 0; i < l - 1; i++) { pk[i] = 0; pd[i] = 10 + i; }
+	pk[l - 1] = 1; pd[l - 1] = 200;
+	ck[0] = 0; ck[1] = 0; ck[2] = 0;
+	reset();
+	for (int i = 0; i < 4 * (l - 1) + spins; i++) step(1);
+	while (!vrt_finished(0)) step(0);
+	for (int i = 0; i < 20 && !vrt_finished(1); i++) step(1);
+}
+
 int main(void)
 {
 	drv_cmd_t c;
@@ -171,6 +185,8 @@ int main(void)
 			step(drv_arg(&c, 0));
 		else if (drv_is(&c, "Gen"))
 			gen(drv_arg(&c, 0), drv_arg(&c, 1), drv_arg(&c, 2));
+		else if (drv_is(&c, "Late"))
+			late(drv_arg(&c, 0), drv_arg(&c, 1));
 		else { fprintf(stderr, "rb_drv: unknown command %s\n", c.tok[0]); return 3; }
 	}
 	fflush(stdout);
